@@ -8,6 +8,8 @@ Everything a check needs besides its own generator / comparison logic:
   * evidence / replay files, known findings, the verdict line.
 """
 import ast
+import warnings
+warnings.filterwarnings('ignore', category=SyntaxWarning)
 import fcntl
 import hashlib
 import json
@@ -85,9 +87,10 @@ def forbidden_scan():
     return hits
 
 
-def build_coq(timeout=3000):
+def build_coq(timeout=3000, target=None):
     """Full .vo build (coq_makefile + make), serialised by a lock so concurrent checks share it.
-    Returns (ok, log_text)."""
+    With `target` (e.g. Properties/C17.vo) only that file and everything it depends on is (re)built,
+    so a check is decided by its own cone of the development.  Returns (ok, log_text)."""
     os.makedirs(GEN, exist_ok=True)
     lock = open(os.path.join(COQ, '.build.lock'), 'w')
     fcntl.flock(lock, fcntl.LOCK_EX)
@@ -107,8 +110,8 @@ def build_coq(timeout=3000):
                 return False, r.stdout + r.stderr
         t = time.time()
         try:
-            r = subprocess.run(['timeout', str(timeout), 'make', f'-j{NCPU}'], cwd=COQ,
-                               capture_output=True, text=True)
+            cmd = ['timeout', str(timeout), 'make', f'-j{NCPU}'] + ([target] if target else ['-k'])
+            r = subprocess.run(cmd, cwd=COQ, capture_output=True, text=True)
         except Exception as e:  # pragma: no cover
             return False, repr(e)
         txt = r.stdout[-6000:] + r.stderr[-6000:]
